@@ -307,3 +307,53 @@ Lemma of_string_comma_wf s d : of_string_comma s = OK d -> dec_wf d = true.
 Proof.
   unfold of_string_comma. destruct (of_string s) eqn:E; [intro H; injection H as <-; exact (of_string_wf _ _ E)|apply of_string_wf].
 Qed.
+
+(** ---- magnitude of a coefficient; quantize rounds to the nearest multiple of the quantum, ties to even ---- *)
+Lemma of_lu_bound l : DecimalPos.Unsigned.of_lu l < 10 ^ N.of_nat (Decimal.nb_digits l).
+Proof.
+  induction l; cbn [Decimal.nb_digits DecimalPos.Unsigned.of_lu]; rewrite ?Nat2N.inj_succ, ?N.pow_succ_r'; lia.
+Qed.
+Lemma uint_to_text_len u : List.length (uint_to_text u) = Decimal.nb_digits u.
+Proof. induction u; cbn [uint_to_text List.length Decimal.nb_digits]; congruence. Qed.
+Lemma coeff_lt_pow c : c < 10 ^ Z.to_N (ndigits c).
+Proof.
+  unfold ndigits, dec_of_N. rewrite uint_to_text_len.
+  rewrite <- (DecimalN.Unsigned.of_to c) at 1. unfold N.of_uint. rewrite DecimalPos.Unsigned.of_uint_alt.
+  pose proof (of_lu_bound (Decimal.rev (N.to_uint c))) as H. rewrite DecimalFacts.nb_digits_rev in H.
+  replace (Z.to_N (Z.of_nat (Decimal.nb_digits (N.to_uint c)))) with (N.of_nat (Decimal.nb_digits (N.to_uint c))) by lia. exact H.
+Qed.
+
+(** quantize returns the multiple of the quantum nearest to the operand, ties to the even coefficient (ROUND_HALF_EVEN) *)
+Lemma quantize_nearest neg c e q c' : quantize neg c e q = OK (Fin neg c' q) ->
+  ((q <= e)%Z -> c' = c * 10 ^ Z.to_N (e - q)) /\
+  ((e < q)%Z -> let p := 10 ^ Z.to_N (q - e) in
+               2 * c <= 2 * c' * p + p /\ 2 * c' * p <= 2 * c + p /\ ((2 * c = 2 * c' * p + p \/ 2 * c' * p = 2 * c + p) -> N.even c' = true)).
+Proof.
+  unfold quantize. intro H.
+  destruct ((DEFAULT_EMAX <? q) || (q <? DEFAULT_ETINY))%Z; [discriminate|].
+  destruct (c =? 0) eqn:Ec.
+  - apply N.eqb_eq in Ec. subst c. injection H as <-. split; [intros _; reflexivity|]. intros _. cbv zeta.
+    assert (0 < 10 ^ Z.to_N (q - e)) by (apply N.neq_0_lt_0, N.pow_nonzero; discriminate). split; [lia|]. split; [lia|]. intros [E|E]; [lia|reflexivity].
+  - destruct (PREC <? ndigits c + (e - q))%Z; [discriminate|]. destruct (q <=? e)%Z eqn:Eqe.
+    + injection H as <-. split; [reflexivity|lia].
+    + split; [lia|]. intros _. cbv zeta. set (sh := (q - e)%Z) in *.
+      assert (Hp : 0 < 10 ^ Z.to_N sh) by (apply N.neq_0_lt_0, N.pow_nonzero; discriminate).
+      destruct (ndigits c <? sh)%Z eqn:En.
+      * injection H as <-. pose proof (coeff_lt_pow c) as Hc.
+        assert (10 * 10 ^ Z.to_N (ndigits c) <= 10 ^ Z.to_N sh).
+        { rewrite <- N.pow_succ_r'. apply N.pow_le_mono_r; [discriminate|]. pose proof (ndigits_pos c). lia. }
+        split; [lia|]. split; [lia|]. intros [E|E]; [lia|reflexivity].
+      * cbv zeta in H. set (p := 10 ^ Z.to_N sh) in *.
+        assert (Hh : 2 * (5 * 10 ^ (Z.to_N sh - 1)) = p).
+        { unfold p. replace (Z.to_N sh) with (N.succ (Z.to_N sh - 1)) at 2 by lia. rewrite N.pow_succ_r'. lia. }
+        set (half := 5 * 10 ^ (Z.to_N sh - 1)) in *.
+        pose proof (N.div_mod c p ltac:(lia)) as Hdm. pose proof (N.mod_lt c p ltac:(lia)) as Hm.
+        set (qq := c / p) in *. set (r := c mod p) in *.
+        destruct ((half <? r) || ((r =? half) && N.odd qq)) eqn:Eb.
+        -- destruct (PREC <? ndigits (qq + 1))%Z; [discriminate|]. injection H as <-.
+           assert (Hr : half < r \/ (r = half /\ N.odd qq = true)) by lia. split; [nia|]. split; [nia|].
+           intros [E|E]; [nia|]. destruct Hr as [Hr|[Hr Ho]]; [nia|]. rewrite <- N.negb_odd, N.add_1_r, N.odd_succ, <- N.negb_odd, Ho. reflexivity.
+        -- destruct (PREC <? ndigits qq)%Z; [discriminate|]. injection H as <-.
+           assert (Hr : r < half \/ (r = half /\ N.odd qq = false)) by lia. split; [nia|]. split; [nia|].
+           intros [E|E]; [|nia]. destruct Hr as [Hr|[Hr Ho]]; [nia|]. rewrite <- N.negb_odd, Ho. reflexivity.
+Qed.
